@@ -266,7 +266,7 @@ def coq_bg_case(c, out):
 
 CBW, CBH = 200, 120
 # finding H: optimize_images re-encodes JPEGs at quality 75 although documented lossless; set True once fixed
-OPTIMIZE_IS_LOSSLESS_FOR_JPEG = False
+OPTIMIZE_IS_LOSSLESS_FOR_JPEG = True   # judged; the open finding is met through its signature
 
 
 def gen_pool(rng):
@@ -463,7 +463,11 @@ def fixed_docs():
             bg(8, 'w.png', px=('pct', '50'), py=('px', '5'), bottom=True, rx='round', ry='no-repeat')]   # F
     html = ('<style>@page{size:400px 4000px;margin:0}html,body{margin:0;padding:0;font-family:weasyprint;font-size:10px;'
             'line-height:10px}</style>' + ''.join(use_html(u) for u in uses))
-    return [dict(images=pool, uses=uses, html=html, pdf_options={'uncompressed_pdf': True})]
+    probe = dict(images={'o.png': dict(kind='png', mode='RGB', w=6, h=3, seed=5, trns=False)}, uses=[], probe='orientation',
+                 html='<style>@page{size:400px 400px;margin:0}body{margin:0}</style><img id="o0" src="o.png">'
+                      '<img id="o1" src="o.png" style="image-orientation:90deg">',
+                 pdf_options={'uncompressed_pdf': True})
+    return [dict(images=pool, uses=uses, html=html, pdf_options={'uncompressed_pdf': True}), probe]
 
 
 def resolve_len(v, ref, default):
@@ -549,6 +553,12 @@ def monitor_prepare(run, docs, outs):
             continue
         if o['pdf_problems']:
             fail('PDF structure problems: %s' % o['pdf_problems'], d, {}, 'c13:pdf-structure')
+        if d.get('probe') == 'orientation':
+            sizes = {b['id']: (b['w'], b['h']) for b in o['boxes']}
+            if sizes != {'o0': (6, 3), 'o1': (3, 6)}:
+                fail('one image used with two image-orientation values: sizes %s, expected o0 6x3 and o1 3x6' % sizes, d,
+                     {'sizes': str(sizes)}, 'c13:image-cache-ignores-orientation')
+            continue
         uses = {u['id']: u for u in d['uses']}
         boxes = {}
         for b in o['boxes']:
@@ -669,6 +679,10 @@ def check_xobject(fail, d, uid, name, spec, xo, lossy_jpeg, lossy_all):
         fail('image XObject of #%s cannot be decoded: %s' % (uid, xo), d, {'element': uid}, 'c13:xobject-decode')
         return
     if lossy_all or (lossy_jpeg and spec['kind'] == 'jpeg'):
+        return
+    if name not in xo['match'] and spec['kind'] == 'jpeg' and d['pdf_options'].get('optimize_images'):
+        fail('optimize_images (documented lossless) changed the pixels of JPEG %s painted for #%s' % (name, uid), d,
+             {'element': uid, 'xobject': xo}, 'c13:optimize-images-jpeg-lossy')
         return
     if name not in xo['match']:
         fail('image XObject painted for #%s (%s %s) does not decode to the pixels/alpha of its source (matches %s)' % (
